@@ -59,6 +59,7 @@ Inductive fkind :=
 
 Inductive hobs :=
 | HOp (ok : bool) (o : DB.op V) (ob : sobs)   (* a call (ok = the file system accepts its save), probed afterwards *)
+| HOpD (o : DB.op V) (ob : sobs)              (* the same call by a caller WITHOUT any grant: refused, recorded, nothing changes *)
 | HRe (ob : sobs).                   (* handle dropped, file reopened with the same key, probed *)
 
 Inductive akind := AR | AF | AT.
@@ -141,6 +142,12 @@ Fixpoint run_hist (c : cstate) (s : dbstate V) (f : term) (steps : list hobs) : 
       check_probe f1 (if saved then u else 0) (disk_of (kv_of_file s s' saved)) ob
       && (so_res ob =? res_class r) && live_beq (live_of (kv s')) (so_live ob)
       && run_hist c s' f1 rest
+  | HOpD o ob :: rest =>
+      let '(s', r, fx) := db_step N.eqb okenv s nobody o in
+      check_probe f 0 (disk_of (kv s)) ob
+      && (so_res ob =? res_class r) && live_beq (live_of (kv s')) (so_live ob)
+      && negb (has_save fx)
+      && run_hist c s' f rest
   | HRe ob :: rest =>
       match c_open kek f with
       | (Some (c', _), u) => check_probe f u (disk_of (kv s)) ob && (so_res ob =? 0) && live_beq (live_of (kv s)) (so_live ob)
